@@ -9,6 +9,13 @@ depend on how something is spelled rather than on what it does.  Modes:
   demorgan `not (a and b)` <-> `(not a) or (not b)` on if-tests; `if not c: A else: B` -> `if c: B else: A`
   unelse   `if c: ...return` + `else: B`  ->  B follows the if (guard clause)
   ifexp2stmt   `x = a if c else b`, `return a if c else b`  ->  if / else statements
+  negcmp   `a is not b` -> `not (a is b)`, `not in`, `!=` likewise
+  unchain  `a == b == c` -> `a == b and b == c`
+  rettemp  `return EXPR` -> `returned_k = EXPR` + `return returned_k`
+  unwalrus `if (x := E) is zero:` -> `x = E` + `if x is zero:`
+  dictlit  `dict(a=1)` -> `{"a": 1}`
+  invertif `if c: A else: B` -> `if not c: B else: A`
+  tuplesplit   `a, b = x, y` -> `a = x` + `b = y`
   none     only re-printed by ast.unparse (the control)
 algorithms.py is never touched (its source text is data).  The result is written with ast.unparse (comments are lost)."""
 import ast
@@ -198,6 +205,137 @@ class IfExp2Stmt(ast.NodeTransformer):
         return node
 
 
+class NegCmp(ast.NodeTransformer):
+    """`a is not b` -> `not (a is b)`, `a not in b` -> `not (a in b)`, `a != b` -> `not (a == b)`"""
+    n = 0
+
+    def visit_Compare(self, node):
+        self.generic_visit(node)
+        flip = {ast.IsNot: ast.Is, ast.NotIn: ast.In}  # (`!=` is not `not ==` for arrays and sympy objects)
+        if len(node.ops) == 1 and type(node.ops[0]) in flip:
+            NegCmp.n += 1
+            return ast.copy_location(ast.UnaryOp(op=ast.Not(), operand=ast.Compare(left=node.left, ops=[flip[type(node.ops[0])]()], comparators=node.comparators)), node)
+        return node
+
+
+class Unchain(ast.NodeTransformer):
+    """`a == b == c` -> `a == b and b == c` when the middle operand is pure"""
+    n = 0
+
+    def visit_Compare(self, node):
+        self.generic_visit(node)
+        if len(node.ops) == 2 and pure(node.comparators[0]):
+            Unchain.n += 1
+            return ast.copy_location(ast.BoolOp(op=ast.And(), values=[
+                ast.Compare(left=node.left, ops=[node.ops[0]], comparators=[node.comparators[0]]),
+                ast.Compare(left=node.comparators[0], ops=[node.ops[1]], comparators=[node.comparators[1]])]), node)
+        return node
+
+
+class _BlockRewriter(ast.NodeTransformer):
+    def _block(self, stmts):
+        raise NotImplementedError
+
+    def generic_visit(self, node):
+        super().generic_visit(node)
+        for f in ("body", "orelse", "finalbody"):
+            blk = getattr(node, f, None)
+            if isinstance(blk, list) and blk and isinstance(blk[0], ast.stmt) and not isinstance(node, (ast.ClassDef, ast.Module)):
+                setattr(node, f, self._block(blk))
+        return node
+
+
+class RetTemp(_BlockRewriter):
+    """`return EXPR` -> `returned_k = EXPR; return returned_k` (not for bare names / constants)"""
+    n = 0
+
+    def _block(self, stmts):
+        out = []
+        for s in stmts:
+            if isinstance(s, ast.Return) and s.value is not None and not isinstance(s.value, (ast.Name, ast.Constant)):
+                RetTemp.n += 1
+                nm = f"returned_{RetTemp.n}"
+                out.append(ast.copy_location(ast.Assign(targets=[ast.Name(id=nm, ctx=ast.Store())], value=s.value), s))
+                out.append(ast.copy_location(ast.Return(value=ast.Name(id=nm, ctx=ast.Load())), s))
+            else:
+                out.append(s)
+        return out
+
+
+class Unwalrus(_BlockRewriter):
+    """`if (x := E) <op> Y:` -> `x = E` + `if x <op> Y:` (the walrus is the first thing the test evaluates)"""
+    n = 0
+
+    def _block(self, stmts):
+        out = []
+        for s in stmts:
+            t = s.test if isinstance(s, ast.If) else None
+            first = t
+            while isinstance(first, ast.UnaryOp):
+                first = first.operand
+            if isinstance(first, ast.Compare):
+                first_cmp, first = first, first.left
+            else:
+                first_cmp = None
+            if isinstance(s, ast.If) and isinstance(first, ast.NamedExpr) and sum(isinstance(x, ast.NamedExpr) for x in ast.walk(t)) == 1:
+                Unwalrus.n += 1
+                out.append(ast.copy_location(ast.Assign(targets=[ast.Name(id=first.target.id, ctx=ast.Store())], value=first.value), s))
+                name = ast.Name(id=first.target.id, ctx=ast.Load())
+
+                class Rep(ast.NodeTransformer):
+                    def visit_NamedExpr(self, node):
+                        return name
+                s.test = Rep().visit(t)
+                out.append(s)
+            else:
+                out.append(s)
+        return out
+
+
+class InvertIf(ast.NodeTransformer):
+    """`if c: A else: B` -> `if not c: B else: A` (two-armed ifs without elif)"""
+    n = 0
+
+    def visit_If(self, node):
+        self.generic_visit(node)
+        if node.orelse and not (len(node.orelse) == 1 and isinstance(node.orelse[0], ast.If)) and not (isinstance(node.test, ast.UnaryOp) and isinstance(node.test.op, ast.Not)):
+            InvertIf.n += 1
+            return ast.copy_location(ast.If(test=ast.UnaryOp(op=ast.Not(), operand=node.test), body=node.orelse, orelse=node.body), node)
+        return node
+
+
+class TupleSplit(_BlockRewriter):
+    """`a, b = x, y` -> `a = x` + `b = y` when no right-hand side mentions an earlier target"""
+    n = 0
+
+    def _block(self, stmts):
+        out = []
+        for s in stmts:
+            if isinstance(s, ast.Assign) and len(s.targets) == 1 and isinstance(s.targets[0], ast.Tuple) and isinstance(s.value, ast.Tuple) \
+                    and len(s.targets[0].elts) == len(s.value.elts) and all(isinstance(t, ast.Name) for t in s.targets[0].elts) \
+                    and not any(isinstance(v, ast.Starred) for v in s.value.elts):
+                names = [t.id for t in s.targets[0].elts]
+                if not any(isinstance(x, ast.Name) and x.id in names for v in s.value.elts for x in ast.walk(v)):
+                    TupleSplit.n += 1
+                    for t, v in zip(s.targets[0].elts, s.value.elts):
+                        out.append(ast.copy_location(ast.Assign(targets=[ast.Name(id=t.id, ctx=ast.Store())], value=v), s))
+                    continue
+            out.append(s)
+        return out
+
+
+class DictLit(ast.NodeTransformer):
+    """`dict(a=1, b=2)` -> `{"a": 1, "b": 2}`"""
+    n = 0
+
+    def visit_Call(self, node):
+        self.generic_visit(node)
+        if isinstance(node.func, ast.Name) and node.func.id == "dict" and not node.args and node.keywords and all(k.arg for k in node.keywords):
+            DictLit.n += 1
+            return ast.copy_location(ast.Dict(keys=[ast.Constant(value=k.arg) for k in node.keywords], values=[k.value for k in node.keywords]), node)
+        return node
+
+
 for mod in mods:
     path = root / "pymablock" / f"{mod}.py"
     tree = ast.parse(path.read_text())
@@ -220,6 +358,11 @@ for mod in mods:
     elif mode == "ifexp2stmt":
         tree = IfExp2Stmt().visit(tree)
         cnt = IfExp2Stmt.n
+    elif mode in ("negcmp", "unchain", "rettemp", "unwalrus", "dictlit", "invertif", "tuplesplit"):
+        T = {"negcmp": NegCmp, "unchain": Unchain, "rettemp": RetTemp, "unwalrus": Unwalrus, "dictlit": DictLit, "invertif": InvertIf,
+             "tuplesplit": TupleSplit}[mode]
+        tree = T().visit(tree)
+        cnt = T.n
     elif mode == "none":
         cnt = 0  # only re-printed by ast.unparse: the control for the other modes
     else:
